@@ -32,6 +32,9 @@ FLAVOURS = {
     # one validator lags from the start, wakes up before the fair suffix, receives a truncated sync (so it holds loaded
     # events it has not committed) and fast-forwards from a peer's anchor; then the fair suffix
     "relag": ["-live", "30", "-tail", "0", "-relag", "-minn", "4"],
+    # DAG re-feeding on long histories of 2..3 validators: more events per creator than the (odd) cache size of one Badger run,
+    # so the per-participant index windows roll over
+    "dagodd": ["-dagrun", "-minn", "2"],
 }
 
 # per flavour: (shards, histories per shard, max validators, steps) for the quick and the thorough tier
@@ -43,6 +46,7 @@ SIZES = {
     "stall": ((6, 1, 5, 100), (16, 3, 7, 100)),
     "stallmem": ((8, 1, 7, 100), (16, 4, 9, 100)),
     "latesigs": ((3, 1, 2, 100), (16, 2, 2, 100)),
+    "dagodd": ((6, 1, 3, 700), (16, 3, 3, 900)),
     "relag": ((8, 2, 6, 400), (16, 8, 8, 600)),   # long enough for anchors well above round 0 (the reset node's store then lacks the low rounds)
     "longsilent": ((8, 1, 4, 100), (16, 4, 4, 100)),   # cache 200 on node 0 is calibrated for at most 4 validators (with more, the node falls below its supported cache window and stalls everybody when the live validators are exactly a supermajority)
 }
